@@ -8,7 +8,8 @@
 //!
 //!   `hs root=<rec> cnoc=<rec> cicac=<rec|-> dnoc=<rec> dicac=<rec|-> [droot=<rec>] [mut=<M>] [sched=<S>]`
 //!       fresh nodes, fabric id = the one of `dnoc`; `droot` = root installed on the device if it
-//!       differs from the controller's (`root`).
+//!       differs from the controller's (`root`); `ckey=<k>` / `dkey=<k>`: the node signs with pool key
+//!       `k` instead of the key its NOC certifies.
 //!   `again [mut=<M>] [sched=<S>]`   another handshake between the same two nodes (resumption
 //!       is offered when the previous one seeded the caches)
 //!
@@ -245,14 +246,15 @@ fn node_id(r: &Rec) -> Option<u64> {
     r.s.iter().find_map(|a| if let Attr::Node(v) = a { Some(*v) } else { None })
 }
 
-fn install<C: Crypto>(crypto: &C, keys: &Keys, m: &Matter, root: &Rec, noc: &Rec, icac: Option<&Rec>) -> Result<core::num::NonZeroU8, String> {
+fn install<C: Crypto>(crypto: &C, keys: &Keys, m: &Matter, root: &Rec, noc: &Rec, icac: Option<&Rec>, op_key: Option<u64>) -> Result<core::num::NonZeroU8, String> {
     let rb = mint(crypto, keys, root).map_err(|_| "mint")?;
     let nb = mint(crypto, keys, noc).map_err(|_| "mint")?;
     let ib = match icac {
         Some(i) => mint(crypto, keys, i).map_err(|_| "mint")?,
         None => vec![],
     };
-    let sk = keys.key(noc.pk).sk;
+    // the node's operational secret key: the NOC's own unless the case says otherwise
+    let sk = keys.key(op_key.unwrap_or(noc.pk)).sk;
     m.with_state(|st| {
         st.fabrics
             .add(crypto, CanonPkcSecretKeyRef::new(&sk), &rb, &nb, &ib, Some(CanonAeadKeyRef::new(&IPK)), 0xFFF1, 112233)
@@ -386,11 +388,12 @@ fn run_case(out: &mut Out, case: &Case) {
                 let droot = get("droot").unwrap_or_else(|| root.clone());
                 let ctl = Matter::new(&TEST_DEV_DET, TEST_DEV_COMM, &TEST_DEV_ATT, 0);
                 let dev = Matter::new(&TEST_DEV_DET, TEST_DEV_COMM, &TEST_DEV_ATT, 0);
-                let cf = match install(&crypto, &keys, &ctl, &root, &cnoc, get("cicac").as_ref()) {
+                let key = |k: &str| toks[1..].iter().find_map(|t| kv(t, k)).and_then(|v| v.parse::<u64>().ok());
+                let cf = match install(&crypto, &keys, &ctl, &root, &cnoc, get("cicac").as_ref(), key("ckey")) {
                     Ok(f) => f,
                     Err(e) => return e,
                 };
-                if let Err(e) = install(&crypto, &keys, &dev, &droot, &dnoc, get("dicac").as_ref()) {
+                if let Err(e) = install(&crypto, &keys, &dev, &droot, &dnoc, get("dicac").as_ref(), key("dkey")) {
                     return e;
                 }
                 let n = Nodes { ctl, dev, ctl_fab: cf, dev_node: node_id(&dnoc).unwrap_or(0), prev: Rc::new(RefCell::new(Default::default())) };
@@ -519,7 +522,12 @@ pub fn gen(a: &Args) -> String {
                 let mut cc = c.clone();
                 let mut dd = d.clone();
                 let mut droot: Option<Rec> = None;
-                {
+                let mut extra = String::new();
+                if cr.chance(1, 6) {
+                    // the node does not hold the private key its NOC certifies
+                    extra = format!("{}=5", if on_ctl { "ckey" } else { "dkey" });
+                    out.stat(&format!("defect_{}_wrong_op_key", if on_ctl { "ctl" } else { "dev" }), 1);
+                } else {
                     let t = if on_ctl { &mut cc } else { &mut dd };
                     let name = match cr.below(14) {
                         0 => { t.2.fl = Some(cr.below(512) as u16); "sig_flip" }
@@ -545,7 +553,7 @@ pub fn gen(a: &Args) -> String {
                     };
                     out.stat(&format!("defect_{}_{}", if on_ctl { "ctl" } else { "dev" }, name), 1);
                 }
-                ops.push(hs_line(&root, &cc, &dd, droot.as_ref(), ""));
+                ops.push(hs_line(&root, &cc, &dd, droot.as_ref(), &extra));
             }
             2 => {
                 out.stat("kind_mutation_full", 1);
